@@ -208,7 +208,13 @@ pub fn gen_latency(t: &mut Tape) -> Scenario {
     g.attrs[s].take();
     g.steps.push(Step::Sink(s, SinkKind::CollectChannel));
     let mut sc = g.finish();
-    sc.bm = Bm::Adaptive(n, d_us);
+    // mostly adaptive batching (the latency bound applies); otherwise another batch mode on the
+    // very same pipeline: no bound then, but everything is delivered when the channel closes and
+    // the result is the same
+    sc.bm = match sc.steps.len() % 5 {
+        0 => [Bm::Default, Bm::Single, Bm::Fixed(3), Bm::Fixed(1024)][(d_us as usize / 1000) % 4],
+        _ => Bm::Adaptive(n, d_us),
+    };
     // keep the channel open long enough for a withheld element to be noticed
     sc.client_grace_us = d_us * 60;
     // timing faults other than clock skew would have to be added to the bound: keep them out
